@@ -838,6 +838,13 @@ func (e *CoreExtension) testSameAs(value interface{}, args ...interface{}) (bool
 	if len(args) == 0 {
 		return false, errors.New("same_as test requires an argument")
 	}
+	// Values of uncomparable types (slices, maps, functions) are never "the same"
+	if value != nil && !reflect.TypeOf(value).Comparable() {
+		return false, nil
+	}
+	if args[0] != nil && !reflect.TypeOf(args[0]).Comparable() {
+		return false, nil
+	}
 	return value == args[0], nil
 }
 
